@@ -193,7 +193,7 @@ theorem flags_table (cur : Option Nat) (w : Int) :
   | none => simp [flagsPass]
   | some c =>
     simp only [flagsPass, Bool.and_true, Bool.not_false, Bool.true_and, Bool.false_and,
-      Bool.not_true, Bool.and_false, Bool.and_self]
+      Bool.not_true, Bool.and_self]
     refine ⟨trivial, by simp, by simp, ?_, ?_, ?_, ?_⟩ <;> simp <;> omega
 
 /-- EXPIRE-family outcome once the requested absolute deadline `w` is known (purged state):
@@ -239,13 +239,13 @@ theorem expire_arg_table (s : State) (now k : Nat) (v : Int) (f : ExpFlags)
       simp [h1, this]
     · by_cases h2 : v * 1000 > i64Max - now
       · have : v > i64MaxDiv1000 ∨ v < i64MinDiv1000 ∨ v * 1000 > i64Max - now := Or.inr (Or.inr h2)
-        simp [h1, h2, this]
+        simp [h1, h2]
       · have : ¬ (v > i64MaxDiv1000 ∨ v < i64MinDiv1000 ∨ v * 1000 > i64Max - now) := by
           intro h; rcases h with h | h | h
           · exact h1 (Or.inl h)
           · exact h1 (Or.inr h)
           · exact h2 h
-        simp [h1, h2, this]
+        simp [h1, h2]
   · simp
   · simp
   · simp
@@ -270,7 +270,7 @@ theorem set_expire_arg_table (now : Nat) (v : Int) :
     have a : ¬ v ≤ 0 := by omega
     have b : ¬ v > 9223372036854775 := by omega
     have c : ¬ v * 1000 + (now : Int) > 9223372036854775807 := by omega
-    simp only [a, b, c, if_false, decide_false, Bool.and_false, Bool.true_and, if_true, planOfOpt,
+    simp only [a, b, c, if_false, decide_false, Bool.and_false, if_true, planOfOpt,
       Bool.false_eq_true]
     congr 1; omega
   · intro h1 h2
@@ -282,7 +282,7 @@ theorem set_expire_arg_table (now : Nat) (v : Int) :
     have a : ¬ v ≤ 0 := by omega
     have b : ¬ v > 9223372036854775 := by omega
     have c : ¬ v * 1000 > 9223372036854775807 := by omega
-    simp only [a, b, c, if_false, decide_false, Bool.and_false, Bool.true_and, if_true, planOfOpt,
+    simp only [a, b, c, if_false, decide_false, Bool.and_false, if_true, planOfOpt,
       Bool.false_eq_true]
     congr 1; omega
   · intro h1 h2
@@ -357,8 +357,7 @@ theorem modify_keeps_deadline (s : State) (k : Nat) (b : BS) (dl : Option Nat)
 theorem rename_moves_deadline (s : State) (hwf : NMap.WF s) (a b : Nat) (e : Entry)
     (h : NMap.get s a = some e) (hab : a ≠ b) :
     NMap.get (execRename s a b).1 b = some e ∧ NMap.get (execRename s a b).1 a = none := by
-  have hba : ¬ b = a := fun h => hab h.symm
-  simp [execRename, h, hab, hba, NMap.get_insert, NMap.get_erase hwf]
+  simp [execRename, h, hab, NMap.get_insert, NMap.get_erase hwf]
 
 /-- PERSIST: 1 iff a deadline was removed -/
 theorem persist_table (s : State) (k : Nat) :
@@ -467,7 +466,7 @@ theorem emptied_list_vanishes (s : State) (hwf : NMap.WF s) (k : Nat) (x : BS) (
     simp [execLTrim, h, this, slice, putList, NMap.get_erase hwf]
   · intro dst f t hne hd
     have hne' : ¬ k = dst := fun e => hne e.symm
-    cases f <;> simp [execLMove, h, hd, popSide, putList, hne, hne', NMap.get_insert,
+    cases f <;> simp [execLMove, h, hd, popSide, putList, hne', NMap.get_insert,
       NMap.get_erase hwf]
 
 /-- … and the observers agree: after the step the key is invisible to every command -/
